@@ -294,6 +294,65 @@ func gen(tier string, rng *h.Rng, emit func(string)) {
 		}
 		emit(fmt.Sprintf("pk %s %s", h.Hex(mar), k))
 	}
+	// group keys chosen by the BYTE PATTERN of their encoding (seeded change C19g-2 was missed: TrimLeft of the 0x01 tag
+	// also eats a coordinate whose top byte is 0x01): walk sk = s0+1, s0+2, … (one point addition each) and take the first
+	// key per (coordinate, pattern): top byte 0x00 / 0x01 (= the tag) / 0x02 / 0x30 (the largest possible), top TWO bytes
+	// 0x01 0x01 or 0x00 0x00 or 0x00 0x01, low byte 0x00 / 0x01 / 0xff; plus keys where SEVERAL coordinates start with the tag
+	{
+		starts := []*big.Int{big.NewInt(0)}
+		limit := 6000
+		if thorough {
+			starts = append(starts, rng.Big(max256), rng.Big(max256))
+			limit = 40000
+		}
+		g := suite.G2().Point().Base()
+		for _, s0 := range starts {
+			seen := map[string]bool{}
+			p := suite.G2().Point().Mul(suite.G2().Scalar().SetBytes(s0.Bytes()), nil)
+			k := new(big.Int).Set(s0)
+			for step := 0; step < limit; step++ {
+				p = suite.G2().Point().Add(p, g)
+				k = new(big.Int).Add(k, big.NewInt(1))
+				mar, err := p.MarshalBinary()
+				if err != nil || len(mar) != 129 {
+					continue
+				}
+				var pats []string
+				tagged := 0
+				for c := 0; c < 4; c++ {
+					w := mar[1+32*c : 33+32*c]
+					switch w[0] {
+					case 0x00, 0x01, 0x02, 0x30:
+						pats = append(pats, fmt.Sprintf("c%d-top%02x", c, w[0]))
+					}
+					if w[0] == 0x01 {
+						tagged++
+					}
+					if w[0] <= 0x01 && w[1] <= 0x01 {
+						pats = append(pats, fmt.Sprintf("c%d-top%02x%02x", c, w[0], w[1]))
+					}
+					switch w[31] {
+					case 0x00, 0x01, 0xff:
+						pats = append(pats, fmt.Sprintf("c%d-low%02x", c, w[31]))
+					}
+				}
+				if tagged >= 2 {
+					pats = append(pats, fmt.Sprintf("tagged%d", tagged))
+				}
+				hit := false
+				for _, pt := range pats {
+					if !seen[pt] {
+						seen[pt] = true
+						hit = true
+					}
+				}
+				if hit {
+					emit(fmt.Sprintf("pk %s %s", h.Hex(mar), k))
+					emit(fmt.Sprintf("rgk %s", k))
+				}
+			}
+		}
+	}
 	// a completed key generation's group key through the real registerGroup stage into the adaptor (review E #4)
 	grps := [][2]string{{"3", "1"}, {"4", "115792089237316195423570985008687907853269984665640564039457584007913129639935"}}
 	if tier == "thorough" {
